@@ -179,8 +179,16 @@ impl C20 {
 
 // ------------------------------------------------------------------ values
 
+/// Scalar type of value slot `slot`: the alpha slot (the last one of a wrapped color) may have its own.
+fn scalar_of(c: &CaseDesc, slot: usize) -> &'static str {
+    match c.alpha_scalar {
+        Some(a) if c.wrapper != Wrapper::None && slot + 1 == c.nvals => a,
+        _ => c.scalar,
+    }
+}
+
 fn text_safe_value(rng: &mut Rng, c: &CaseDesc, slot: usize) -> f64 {
-    match c.scalar {
+    match scalar_of(c, slot) {
         "u8" => rng.below(256) as f64,
         "u16" => match rng.below(4) {
             0 => 65535.0,
@@ -207,10 +215,11 @@ fn text_safe_value(rng: &mut Rng, c: &CaseDesc, slot: usize) -> f64 {
 }
 
 fn raw_value(rng: &mut Rng, c: &CaseDesc, slot: usize) -> f64 {
-    if c.scalar == "u8" || c.scalar == "u16" || c.hue_slot == Some(slot) {
+    let sc = scalar_of(c, slot);
+    if sc == "u8" || sc == "u16" || c.hue_slot == Some(slot) {
         return text_safe_value(rng, c, slot);
     }
-    let f32ish = c.scalar == "f32";
+    let f32ish = sc == "f32";
     match rng.below(10) {
         0 => {
             if f32ish {
@@ -265,15 +274,15 @@ fn gen_vals(rng: &mut Rng, c: &CaseDesc, raw: bool) -> Vec<f64> {
     (0..c.nvals.max(1)).map(|j| if raw { raw_value(rng, c, j) } else { text_safe_value(rng, c, j) }).collect()
 }
 
-fn round_to_scalar(c: &CaseDesc, v: f64) -> f64 {
-    match c.scalar {
+fn round_to_scalar(c: &CaseDesc, slot: usize, v: f64) -> f64 {
+    match scalar_of(c, slot) {
         "f32" => v as f32 as f64,
         _ => v,
     }
 }
 
-fn fmt_scalar(c: &CaseDesc, v: f64) -> String {
-    match c.scalar {
+fn fmt_scalar(c: &CaseDesc, slot: usize, v: f64) -> String {
+    match scalar_of(c, slot) {
         "u8" | "u16" => format!("{}", v as u64),
         "f32" => serde_json::to_string(&(v as f32)).unwrap_or_default(),
         _ => serde_json::to_string(&v).unwrap_or_default(),
@@ -441,7 +450,7 @@ impl World for C20 {
             ctx.fail("harness", "unknown-case", format!("unknown case {}", plan.case));
             return;
         };
-        let vals: Vec<f64> = plan.vals.iter().map(|b| round_to_scalar(c, f64::from_bits(*b))).collect();
+        let vals: Vec<f64> = plan.vals.iter().enumerate().map(|(j, b)| round_to_scalar(c, j, f64::from_bits(*b))).collect();
         if vals.len() < c.nvals {
             ctx.fail("harness", "short-vals", format!("plan has {} values, case needs {}", vals.len(), c.nvals));
             return;
@@ -475,7 +484,7 @@ impl World for C20 {
         let mut out = Vec::new();
         let Some(c) = self.case(&plan.case) else { return out };
         // simpler values
-        let simple: Vec<f64> = (0..plan.vals.len()).map(|j| if c.scalar.starts_with('u') { (j + 1) as f64 } else { 0.25 * (j + 1) as f64 }).collect();
+        let simple: Vec<f64> = (0..plan.vals.len()).map(|j| if scalar_of(c, j).starts_with('u') { (j + 1) as f64 } else { 0.25 * (j + 1) as f64 }).collect();
         let simple_bits: Vec<u64> = simple.iter().map(|v| v.to_bits()).collect();
         if plan.vals != simple_bits {
             out.push(Plan { vals: simple_bits, vals_text: vals_text(&simple), raw: false, raw_hue: false, ..plan.clone() });
@@ -640,11 +649,11 @@ impl World for C20 {
 // ------------------------------------------------------------------ oracles
 
 fn expected_bits(c: &CaseDesc, vals: &[f64]) -> Vec<u64> {
-    vals[..c.nvals].iter().map(|v| round_to_scalar(c, *v).to_bits()).collect()
+    vals[..c.nvals].iter().enumerate().map(|(j, v)| round_to_scalar(c, j, *v).to_bits()).collect()
 }
 
 fn max_alpha(c: &CaseDesc) -> f64 {
-    match c.scalar {
+    match scalar_of(c, c.nvals.saturating_sub(1)) {
         "u8" => 255.0,
         "u16" => 65535.0,
         _ => 1.0,
@@ -820,7 +829,7 @@ fn json_doc(c: &CaseDesc, vals: &[f64], doc: &Doc) -> Option<String> {
     let ncolor = if has_alpha { c.nvals - 1 } else { c.nvals };
     let nums: Vec<String> = match c.color {
         // user shapes mix f32 / f64 fields; all generated values are exact in both
-        _ => vals[..c.nvals].iter().map(|v| fmt_scalar(c, *v)).collect(),
+        _ => vals[..c.nvals].iter().enumerate().map(|(j, v)| fmt_scalar(c, j, *v)).collect(),
     };
     match doc {
         Doc::Serialized => None,
@@ -1324,7 +1333,7 @@ fn execute(c: &'static CaseDesc, inner: Option<&'static CaseDesc>, vals: &[f64],
             ctx.checked();
             match (arr.json_string)(vals) {
                 Ok(text) => {
-                    let want = format!("[{}]", vals[..c.nvals].iter().map(|v| fmt_scalar(c, *v)).collect::<Vec<_>>().join(","));
+                    let want = format!("[{}]", vals[..c.nvals].iter().enumerate().map(|(j, v)| fmt_scalar(c, j, *v)).collect::<Vec<_>>().join(","));
                     if text != want {
                         ctx.fail("as_array-shape", &key, format!("{}: serialize_as_array wrote {text:?}, the components are {want:?}", c.name));
                         return;
@@ -1509,7 +1518,7 @@ fn note_presentation(ctx: &mut Ctx<'_>, c: &CaseDesc, pres: &Presentation) {
 
 /// What is wrong with the JSON text of a serialized color, if anything.
 fn json_shape_problem(c: &CaseDesc, vals: &[f64], text: &str) -> Option<String> {
-    let nums: Vec<String> = vals[..c.nvals].iter().map(|v| fmt_scalar(c, *v)).collect();
+    let nums: Vec<String> = vals[..c.nvals].iter().enumerate().map(|(j, v)| fmt_scalar(c, j, *v)).collect();
     let has_alpha = c.wrapper != Wrapper::None;
     let want = match c.shape {
         Shape::Hue => nums[0].clone(),
